@@ -9,40 +9,40 @@ def check(pid, technique, category, text, note, design):
 check("C03",
   "explicit-state exploration of the implementation: every block-tree shape x every delivery order, reference-model agreement after every step",
   "model_checking",
-  "Every recursive tree shape of n blocks (quick n=4 plus the five-block trees in which a two-block branch is overtaken by a three-block one, thorough n=5) above a stem, tree blocks spending the output their parent created, every permutation of their delivery through the real consumer path (mempool queue + add_blocks_from_mempool), with conflicting sibling payments, one-invalid-leaf and re-delivery variants and both initial_loading settings; after every delivery the tip/index/flags/utxoset are compared with a replay of genesis..tip by a reference ledger and with a fresh node fed that chain directly.",
+  "Every recursive tree shape of n blocks (quick n=4 plus the five-block trees in which a two-block branch is overtaken by a three-block one, thorough n=5) above a stem, tree blocks spending the output their parent created, every permutation of their delivery through the real consumer path (mempool queue + add_blocks_from_mempool), with conflicting sibling payments, one-invalid-leaf and re-delivery variants, both initial_loading settings, and on a node that keeps transactions in memory (prune_after_blocks 8) as well as one that drops them below the tip (prune_after_blocks 1: every unwind reloads its block from disk); after every delivery the tip/index/flags/utxoset are compared with a replay of genesis..tip by a reference ledger and with a fresh node fed that chain directly.",
   "Bounded by tree size; genesis periods 10 and 3 (window wrap and purge inside the bound); trusted: the harness's RefLedger (set insert/remove) and the block factory built on the real producer.",
   "DESIGN.md §3 C03")
 
 check("C04",
   "explicit-state exploration of the implementation: every fork shape x offending-block position x invalidity kind, full-state before/after comparison and hooked step counter",
   "model_checking",
-  "For every fork shape (current segment a<=2/3, candidate a+1 or a+2 blocks, light-first-block variants that delay the reorg trigger), every position of the offending block and ten kinds of invalidity (signed/unsigned header field, creator signature, transaction signature, spent input, transaction list vs merkle root, timestamp/burn fee, golden-ticket density, unknown parent, id not continuing the parent's), node under test = outsider, block creator or the payer whose outputs the candidate blocks spend, genesis period 10 and 3: the complete observable state (chain, index, flags, spendable set, files, pool, and every wallet slip with its recorded origin) before add_block equals the state after a rejection, the wind/unwind loop stays within 2(a+b)+2 dispatches (cfg-guarded counter turns a livelock into a verdict), the C03 consistency oracle holds afterwards and an honest successor of the tip is still accepted.",
+  "For every fork shape (current segment a<=2/3, candidate a+1 or a+2 blocks, light-first-block variants that delay the reorg trigger), every position of the offending block and ten kinds of invalidity (signed/unsigned header field, creator signature, transaction signature, spent input, transaction list vs merkle root, timestamp/burn fee, golden-ticket density, unknown parent, id not continuing the parent's), node under test = outsider, block creator or the payer whose outputs the candidate blocks spend, genesis period 10 and 3: the complete observable state (chain, index, flags, spendable set, files, pool, and every wallet slip with its recorded origin) before add_block equals the state after a rejection, the wind/unwind loop stays within 2(a+b)+2 dispatches (cfg-guarded counter turns a livelock into a verdict), the C03 consistency oracle holds afterwards and an honest successor of the tip is still accepted. Every case ends with the invalid twin of the old chain's next block being offered (refused with and without stored, unadopted candidate blocks at its height): same before/after comparison.",
   "Descendants of an offending block are honest blocks re-parented and re-signed with the creator key the harness owns; pool contents are outside the property's no-trace list and only reported.",
   "DESIGN.md §3 C04")
 
 check("C01",
   "explicit-state exploration of the implementation: chain positions x adversarial edit catalogue x placements x four gates, judged by a reference ledger",
   "model_checking",
-  "At four chain positions reached through the real producer (fresh, after a reorganisation, window wrapped with and without a fee level) every edit of a ~75-entry catalogue (forged/zero/wrong-key signature, a foreign / non-existent / inflated input at every position of two- and three-input lists mixed with the signer's own valued and zero-amount inputs, non-existent/inflated/spent/replayed/expired/duplicated input, same input in two transactions of a hand-assembled block, Bound retag, outputs exceeding inputs incl. 64-bit wrap, theft and mint under every privileged type, look-up dependent edits under every user-signable type) is offered to the pool, to VerificationThread::verify_tx, and inside attacker-produced blocks as tip extension (two placements) and as completion of a winning side chain; accepted implies authorised per the reference ledger, and every unedited twin / spent-only-on-the-other-fork control must be accepted. Window-edge sweep: at every height of the two wrapped chains every unspent output of every key with age up to g+3 is spent by its owner through all four gates; ages <= g are controls (must be accepted), ages > g must be refused (age g+1 is the block the next block rebroadcasts).",
+  "At five chain positions reached through the real producer (fresh, after a reorganisation, window wrapped with and without a fee level, after a reorganisation attempt that failed part-way: the spend of an input only the rejected block named) every edit of a ~75-entry catalogue (forged/zero/wrong-key signature, a foreign / non-existent / inflated input at every position of two- and three-input lists mixed with the signer's own valued and zero-amount inputs, non-existent/inflated/spent/replayed/expired/duplicated input, same input in two transactions of a hand-assembled block, Bound retag, outputs exceeding inputs incl. 64-bit wrap, theft and mint under every privileged type, look-up dependent edits under every user-signable type) is offered to the pool, to VerificationThread::verify_tx, and inside attacker-produced blocks as tip extension (two placements) and as completion of a winning side chain; accepted implies authorised per the reference ledger, and every unedited twin / spent-only-on-the-other-fork control must be accepted. Window-edge sweep: at every height of the two wrapped chains every unspent output of every key with age up to g+3 is spent by its owner through all four gates; ages <= g are controls (must be accepted), ages > g must be refused (age g+1 is the block the next block rebroadcasts).",
   "Reference ledger = set of output coordinates replayed from the harness's block bytes; attacker owns its key and the creator key of its blocks; the window edge is exact (created at h-g: inside; at h-g-1: outside).",
   "DESIGN.md §3 C01")
 check("C05",
   "explicit-state exploration of the implementation: two-branch forks x every golden-ticket placement x burn-fee profile x every interleaving, three monitors per delivery",
   "model_checking",
-  "Stems of 1/3/5 blocks with every golden-ticket placement the node accepts, two branches of length <=2 (quick) / <=3 (thorough) with every golden-ticket subset, normal or light (slow) spacing per branch, plus a two-block segment against a three-block candidate with every per-block spacing pattern over {2,5} heartbeats, every interleaved delivery plus child-before-parent swaps through the consumer path; after every delivery: M1 (a moved tip is strictly longer, at least as heavy over the diverging segment, valid, dense in every six-block window), M2 (height never decreases, an orphan changes neither tip nor index), M3 (a block completing a longer, heavy-enough, valid, dense chain becomes the tip) and the C03 consistency oracle.",
-  "Start-up phase of the density rule: M1 lenient, M3 strict (code's), chains between the readings are don't-cares; blocks are spaced >= 2 heartbeats so no routing work is needed; builders bypass the density rule to be able to produce descendants of violators.",
+  "Stems of 1/3/5 blocks with every golden-ticket placement the node accepts, two branches of length <=2 (quick) / <=3 (thorough) with every golden-ticket subset, normal or light (slow) spacing per branch, plus a two-block segment against a three-block candidate with every per-block spacing pattern over {2,5} heartbeats, every interleaved delivery plus child-before-parent swaps through the consumer path; the same grid at genesis period 3 (ring of six slots wraps inside the cases; stems of 1..5 blocks incl. four) on a node that has and one that has not completed its initial loading, with and without the last block of a branch replaced by an invalid twin (a chain that fails while being wound); after every delivery: M1 (a moved tip is strictly longer, at least as heavy over the diverging segment, valid, dense in every six-block window), M2 (height never decreases, an orphan changes neither tip nor index), M3 (a block completing a longer, heavy-enough, valid, dense chain becomes the tip) and the C03 consistency oracle.",
+  "Start-up phase of the density rule: M1 lenient, M3 strict (code's), chains between the readings are don't-cares; blocks are spaced >= 2 heartbeats so no routing work is needed; builders bypass the density rule to be able to produce descendants of violators; density windows whose oldest block the node has already purged (g=3 only) are not judged.",
   "DESIGN.md §3 C05")
 
 check("C02",
   "explicit-state exploration of the implementation: producer histories, fork trees and a boundary amount sweep, conservation oracle in 128-bit arithmetic after every accepted block",
   "model_checking",
-  "Conservation (in-window outputs per reference ledger + treasury + graveyard + unpaid + collected fees == issued, u128) is evaluated after every block accepted in (1) every script of the C07 producer world (three configurations incl. staking, fee levels, routed/unrouted payers, golden ticket present/absent, fast/slow blocks, two window wraps, a treasury-rich variant), (2) every tree shape of n blocks over a stem at genesis period 3 in two delivery orders (reorganisations across the window edge), and per transaction sum(out) <= sum(in); plus every output vector of length <=3 over eight boundary amounts (0,1,in,in+1,2^63-1,2^63,2^64-in,2^64-1) through the verification gate.",
+  "Conservation (in-window outputs per reference ledger + treasury + graveyard + unpaid + collected fees == issued, u128) is evaluated after every block accepted in (1) every script of the C07 producer world (three configurations incl. staking, fee levels, routed/unrouted payers, golden ticket present/absent, fast/slow blocks, two window wraps, a treasury-rich variant), (2) every tree shape of n blocks over a stem at genesis period 3 in two delivery orders (reorganisations across the window edge), and per transaction sum(out) <= sum(in); plus every output vector of length <=3 over eight boundary amounts (0,1,in,in+1,2^63-1,2^63,2^64-in,2^64-1) through the verification gate; (4) adversarial peer blocks at the five C01 chain positions: for every (owner key, slip kind) with an unspent in-window output (Normal, ATR, MinerOutput, RouterOutput) a block in which the owner spends it in two transactions, and its single-spend control; an accepted block is applied to the reference ledger and judged by the same oracle.",
   "The node's wrapping u64 supply check is not the oracle (a panic there is itself reported). Rebroadcasts with a treasury payout are never accepted on the pinned tree (C07 known finding), so that path is not covered.",
   "DESIGN.md §3 C02")
 check("C07",
   "explicit-state exploration of the implementation: deviation-bounded and exhaustive-prefix round scripts on the real producer, differential acceptance on an independent node",
   "model_checking",
-  "Rounds of {submit transaction variant (fee 0/small/large, 0-2 hop routing paths ending or not at the producer, two payers), golden ticket available or not, elapsed time 0.5/1/2/3 heartbeats, Mempool::bundle_block} from genesis through two window wraps (2g+4 rounds; g=3, g=3 with staking, g=4, treasury-rich variant): default script with <=1 (quick) / <=2 (thorough) deviations from a 48-symbol round alphabet the exhaustive product of the first two rounds from a fresh and a just-wrapped chain, and rounds in which a block of another producer double-spends a pooled routed transaction before bundling (six fee levels, four elapsed times). Every produced block must be accepted by the producer and, as bytes, by an independent node; both chain states must then agree; no block produced => pool unchanged.",
+  "Rounds of {submit transaction variant (fee 0/small/large, 0-2 hop routing paths ending or not at the producer, two payers), golden ticket available or not, elapsed time 0.5/1/2/3 heartbeats, Mempool::bundle_block} from genesis through two window wraps (2g+4 rounds; g=3, g=3 with staking, g=4, treasury-rich variant): default script with <=1 (quick) / <=2 (thorough) deviations from a 48-symbol round alphabet the exhaustive product of the first two rounds from a fresh and a just-wrapped chain, rounds in which a block of another producer double-spends a pooled routed transaction before bundling (six fee levels, four elapsed times), and runs of 1..g+1 consecutive rounds whose block is assembled by another funded producer on its own node (own wallet and stake, real bundle_block) at every position, after which the producer under test produces again (staking worlds 100,000,000 and 20,000,000). Every produced block must be accepted by the producer and, as bytes, by an independent node; both chain states must then agree; no block produced => pool unchanged.",
   "Producer K0 and twin K9 share only bytes. Heartbeat 5000 ms; the hash-dependent minimum spacing in can_bundle_block makes some fast rounds produce no block (counted).",
   "DESIGN.md §3 C07")
 
@@ -62,7 +62,7 @@ check("C09",
 check("C10",
   "bounded-exhaustive truncation and boundary corruption of valid encodings against every reachable decoder, in a child process with a counting allocator",
   "exploration",
-  "For 85 base encodings covering every decoder a peer or the disk can reach (Message::deserialize for all tags, Block / Transaction / Slip / Hop decoders incl. the generate() pass every decoded block and transaction goes through, block files through Storage, chain-sync, handshake challenge/response, blockchain request, service list, version, wallet disk record, utxo key parser, balance-snapshot text, issuance file): every prefix, every 1/2/4-byte window forced to 00/FF, eleven boundary values on every count / length / tag field, all 256 values of tag and type bytes, and all byte strings of length <= 3 under every message tag (~190k inputs quick). Oracle: Ok or Err, no panic, peak allocation (counting global allocator) <= 64*len + 1 MiB; the sweep runs in a child process so an abort is reported.",
+  "For 85 base encodings covering every decoder a peer or the disk can reach (Message::deserialize for all tags, Block / Transaction / Slip / Hop decoders incl. the generate() pass every decoded block and transaction goes through, block files through Storage, chain-sync, handshake challenge/response, blockchain request, service list, version, wallet disk record, utxo key parser, balance-snapshot text, issuance file): every prefix, every 1/2/4-byte window forced to 00/FF, eleven boundary values on every count / length / tag field, all 256 values of tag and type bytes, and all byte strings of length <= 3 under every message tag (~190k inputs quick). Oracle: Ok or Err, no panic, peak allocation (counting global allocator) <= 64*len + 1 MiB; the sweep runs in a child process so an abort is reported. Nested decoders: every block that passes generate() has its golden-ticket payloads decoded, and every golden-ticket payload length 0..=300 is sent as a signed transaction through VerificationThread::verify_tx and the pool, and inside a re-signed block through Blockchain::add_block at the parent.",
   "Prefix/window sweeps are exhaustive over the first 700 bytes of each encoding in the quick tier and over the whole encoding in the thorough tier. GoldenTicket::deserialize_from_net and ApiMessage::deserialize are swept through their guarded callers.",
   "DESIGN.md §3 C10")
 
@@ -97,7 +97,7 @@ check("C19",
 check("C08",
   "exhaustive grid over the work function plus bounded-exhaustive boundary blocks and lottery outcomes against the implementation",
   "model_checking",
-  "(1) The real work function is evaluated at every elapsed time 1..2hb+2 for heartbeats {1,2,100,5000} x ~50 boundary burn fees (0, 1, 10^n-1, 10^n, 2^53+-1, 2^63+-1, 2^64-1, the misordering sentinel): non-increasing in elapsed time, zero from two heartbeats on, sentinel for misordered timestamps (~5*10^5 evaluations, the whole grid). (2) Real blocks produced on a 3-block chain at elapsed in {1, hb/2, hb, 2hb-1, 2hb} whose single fee-paying transaction delivers exactly needed-2..needed+2 work through each of 7 path variants (1 hop, 2 hops with halving, no path, last hop not the creator, broken chain, forged hop signature, self hop): accepted iff an independent oracle (every hop signature verifies, hops contiguous, last hop = creator, halving per extra hop) counts at least the requirement. (3) Payout blocks for 24 (quick) / 64 (thorough) distinct golden-ticket solutions, paying one or two earlier fee blocks: every output of the fee transaction goes to the ticket's solver or to a key that originated or routed a transaction of a paid block, and the outputs sum to at most the fees those blocks collected.",
+  "(1) The real work function is evaluated at every elapsed time 1..2hb+2 for heartbeats {1,2,100,5000} x ~50 boundary burn fees (0, 1, 10^n-1, 10^n, 2^53+-1, 2^63+-1, 2^64-1, the misordering sentinel): non-increasing in elapsed time, zero from two heartbeats on, sentinel for misordered timestamps (~5*10^5 evaluations, the whole grid). (2) Real blocks produced on a 3-block chain at elapsed in {1, hb/2, hb, 2hb-1, 2hb} whose single fee-paying transaction delivers exactly needed-2..needed+2 work through each of 7 path variants (1 hop, 2 hops with halving, no path, last hop not the creator, broken chain, forged hop signature, self hop): accepted iff an independent oracle (every hop signature verifies, hops contiguous, last hop = creator, halving per extra hop) counts at least the requirement; each such block is offered to a node holding the chain from genesis and to a node that joined at the parent (its first block). (3) Payout blocks for 24 (quick) / 64 (thorough) distinct golden-ticket solutions, paying one or two earlier fee blocks: every output of the fee transaction goes to the ticket's solver or to a key that originated or routed a transaction of a paid block, and the outputs sum to at most the fees those blocks collected.",
   "A 1-nolan band around the float-rounded requirement is a don't-care. Lottery outcomes are covered per distinct winner reachable in the small world, not per hash value.",
   "DESIGN.md §3 C08")
 
@@ -118,7 +118,7 @@ check("C17",
 check("C11",
   "explicit-state breadth-first search over hostile peer input on a real FullNode (routing, verification and consensus handlers), every delivery order of the internal channels",
   "model_checking",
-  "One real FullNode with a 3-block chain in full-node and in lite (SPV) configuration; an honest peer runs a 7-step script (announce a block, serve it, send a transaction, timers, chain request); three hostile senders (authenticated, connected-but-never-authenticated, unknown index) draw from an alphabet of about 150 symbols: every message tag in hostile shapes (Block-tagged message, chain / ghost-chain requests with 0 and u64::MAX, ghost chains empty / fabricated / huge ids, key lists up to the rate limit, unsolicited handshake traffic, undecodable and truncated buffers), 13 hostile transactions (96-byte golden ticket, no inputs, producer-only types, theft, wrapping amounts, bad path), 17 hostile block buffers served for an announced hash (garbage, truncated, wrong hash / id, bad signatures, double spend, malformed golden ticket / rebroadcast / fee payloads, id 0 and u64::MAX, failing fetch), zero-parent / orphan blocks below and above the tip, an invalid-block burst, connection events for known and unknown indices. In addition an exhaustive sweep of correctly signed zero-amount transactions over type x input count x output count (0..3) x slip-type pattern x payload length (around the golden ticket size), delivered from an authenticated and an unauthenticated peer at two points of the script and to a node without a chain (3312 deliveries). Histories = interleavings of honest steps, at most 1 (quick) / 2 (thorough, capped) hostile symbols and single deliveries of the verification / consensus / routing channel heads; state = history, deduplicated by digest. Every handler call must return (no panic, no stall, no step-budget cut); every quiescent end state's honest-visible projection (tip, longest chain, utxo, supply, pool, the honest peer's table entry, messages sent to the honest peer) must be one that the hostile-free schedules also reach.",
+  "One real FullNode with a 3-block chain in full-node and in lite (SPV) configuration; an honest peer runs a 7-step script (announce a block, serve it, send a transaction, timers, chain request); three hostile senders (authenticated, connected-but-never-authenticated, unknown index) draw from an alphabet of about 150 symbols: every message tag in hostile shapes (Block-tagged message, chain / ghost-chain requests with 0 and u64::MAX, ghost chains empty / fabricated / huge ids, key lists up to the rate limit, unsolicited handshake traffic, undecodable and truncated buffers), 13 hostile transactions (96-byte golden ticket, no inputs, producer-only types, theft, wrapping amounts, bad path), 18 hostile block buffers served for an announced hash (garbage, truncated, wrong hash / id, bad signatures, double spend, golden ticket payload too short / too long, malformed rebroadcast / fee payloads, id 0 and u64::MAX, failing fetch), zero-parent / orphan blocks below and above the tip, an invalid-block burst, connection events for known and unknown indices. In addition an exhaustive sweep of correctly signed zero-amount transactions over type x input count x output count (0..3) x slip-type pattern x payload length (around the golden ticket size), delivered from an authenticated and an unauthenticated peer at two points of the script and to a node without a chain (3312 deliveries). Histories = interleavings of honest steps, at most 1 (quick) / 2 (thorough, capped) hostile symbols and single deliveries of the verification / consensus / routing channel heads; state = history, deduplicated by digest. Every handler call must return (no panic, no stall, no step-budget cut); every quiescent end state's honest-visible projection (tip, longest chain, utxo, supply, pool, the honest peer's table entry, messages sent to the honest peer) must be one that the hostile-free schedules also reach.",
   "Socket layer raises fetch results only for requested fetches and answers disconnect requests; InterfaceIO calls succeed; in lite mode blocks and ghost chains from an authenticated peer are accepted input by design (only abort-freedom is checked for them); announcements of unvalidated side-chain blocks are relayed by design and are not part of the comparison.",
   "DESIGN.md §3 C11")
 
